@@ -232,7 +232,14 @@ def _run_batch(scns, seed, stop_at_reopen=False, xsd=False):
             while pos[k] < len(acts) and acts[pos[k]]["op"] != "SaveReopen":
                 a = dict(acts[pos[k]])
                 s = None
-                if "s" in a:
+                if a.get("same"):
+                    # assign exactly what this level reads now (the model predicted the classes; the trace carries the real characters)
+                    try:
+                        s = hs[k].tf.paragraphs[a["i"] - 1].text if a["op"] == "SetPara" else hs[k].read_frame()
+                    except Exception:
+                        s = to_concrete(a["s"])
+                    a["s"] = classify(s)
+                elif "s" in a:
                     s, a["s"] = concretise(a["s"], rngs[k])
                     used.update(a["s"])
                 try:
@@ -280,7 +287,9 @@ def describe(sc: dict, seed: int = 0) -> list:
     rng = _rng(seed, sc["id"])
     out = []
     for a in sc["acts"]:
-        if "s" in a:
+        if a.get("same"):
+            out.append({"op": a["op"], "i": a.get("i"), "text": "<what this level reads at that moment>", "tokens": a["s"]})
+        elif "s" in a:
             s, ref = concretise(a["s"], rng)
             out.append({"op": a["op"], "i": a.get("i"), "j": a.get("j"), "text": s, "repr": ascii(s), "tokens": ref})
         else:
